@@ -86,7 +86,15 @@ def features(src, kinds):
             except SyntaxError:
                 assign_like = True
     dangling = bool(_re.search(r"\\\n\s*$", src)) and src.rstrip(" \t\n").endswith("\\")
-    f = {"triple_trailing": False, "assign_like_command": assign_like, "dangling_continuation": dangling, "macro": "macro" in kinds, "sub": "sub" in kinds, "cont": "\\\n" in src, "tabs": "\t" in src, "crlf": "\r" in src}
+    # a `#` glued to the token before it, on a line after a statement that used a xonsh bracket form
+    glued = False
+    seen_bracket = False
+    for ln in src.split("\n"):
+        if seen_bracket and _re.search(r"[^\s#]#", ln):
+            glued = True
+        if any(b in ln for b in ("![", "$[", "$(", "!(", "@(", "${", "@$(")):
+            seen_bracket = True
+    f = {"triple_trailing": False, "glued_hash_after_bracket": glued, "assign_like_command": assign_like, "dangling_continuation": dangling, "macro": "macro" in kinds, "sub": "sub" in kinds, "cont": "\\\n" in src, "tabs": "\t" in src, "crlf": "\r" in src}
     # a triple-quoted literal with blanks before one of its inner newlines
     for q in ("'''", '"""'):
         parts = src.split(q)
@@ -232,7 +240,7 @@ def describe(trace, matched):
 def slim(t):
     o = t["steps"][0]["obs"]
     f = t["feat"]
-    return {"feat": {k: bool(f.get(k)) for k in ("triple_trailing", "assign_like_command", "dangling_continuation")}, "steps": [{"cmd": "format", "obs": {"accepted": o["accepted"], "same": bool(o["same_tree"] and o["comments_same"]), "idem": bool(o["idempotent"])}}]}
+    return {"feat": {k: bool(f.get(k)) for k in ("triple_trailing", "assign_like_command", "dangling_continuation", "glued_hash_after_bracket")}, "steps": [{"cmd": "format", "obs": {"accepted": o["accepted"], "same": bool(o["same_tree"] and o["comments_same"]), "idem": bool(o["idempotent"])}}]}
 
 
 def run(tier, seed, replay=None):
